@@ -8,7 +8,7 @@ use serde_json::{json, Value};
 
 pub const RULE: &str = "histories of up to 60 (quick) / 300 (thorough) transactions on an unreliable-transport client with generated initial RTO \
 (1 ms-3 s) and granularity (1 us-100 ms): each transaction is sent after a gap (short, or around the 600 s boundary to the nanosecond), \
-retransmitted 0-3 times or not at all (Rc 7 / Rm 16, or generated Rc 1-14 and Rm 1-32), answered after 1 ms-40 s or lost (left to time out), sometimes overlapping the next one; after every \
+retransmitted 0-3 times or not at all (Rc 7 / Rm 16, or generated Rc 1-14 and Rm 1-32), answered after 1 ms-40 s or lost (left to time out), without credentials or with short-term / long-term credentials (then answered by 401 / 438 challenges, authenticated success or error responses, or a failing response before the good one), sometimes overlapping the next one; after every \
 send the RTO chosen for the new request (hook, and independently the duration of the first notification when nothing else is outstanding) \
 is compared with a double-precision RFC 6298 reference (alpha 1/8, beta 1/4, K 4, RTTVAR before SRTT, Karn's rule, reset after more than \
 600 s between requests) within 1e-5 relative + 1 us; zero response times are excluded by construction; non-trivial = at least 3 samples \
@@ -21,6 +21,11 @@ pub struct Txn {
     pub delay: u64,
     pub lost: bool,
     pub overlap: bool,
+    /// how the server answers when credentials are configured: 0 natural (long-term: 401 until a session exists, then
+    /// authenticated success), 1 a (new) 401 challenge, 2 a 438, 3 an authenticated error response,
+    /// 4 a response failing authentication half-way (ignored), then the natural answer
+    #[serde(default)]
+    pub kind: u8,
 }
 
 #[derive(Clone, Debug, Hash, Serialize, Deserialize)]
@@ -31,6 +36,10 @@ pub struct RttCase {
     /// (Rc, Rm); None = the defaults 7 and 16.  Large values let a lost request stay outstanding for minutes.
     #[serde(default)]
     pub rc_rm: Option<(u32, u32)>,
+    /// 0 no credentials, 1 short-term (algorithm learned), 2 long-term: a transaction that ends with a retry
+    /// instruction or an authenticated error response completed as well and feeds the estimator
+    #[serde(default)]
+    pub mech: u8,
 }
 
 struct RefRtt {
@@ -69,6 +78,11 @@ pub fn check_rtt(c: &RttCase, st: &mut Stats) -> Result<(), String> {
         rc: c.rc_rm.map(|x| x.0).unwrap_or(7),
         rm: c.rc_rm.map(|x| x.1).unwrap_or(16),
         max_tx: 1000,
+        mech: match c.mech {
+            0 => Mech::None,
+            1 => Mech::ShortTerm(None),
+            _ => Mech::LongTerm,
+        },
         ..ClientCfg::default_unreliable()
     };
     let mut sim = Sim::new(&cfg)?;
@@ -83,7 +97,7 @@ pub fn check_rtt(c: &RttCase, st: &mut Stats) -> Result<(), String> {
     let mut last_send: Option<u64> = None;
     let (mut samples, mut karn, mut gaps) = (0u32, 0u32, 0u32);
     // pending responses of overlapping transactions: (tid index, deliver_at)
-    let mut pending: Vec<(usize, u64)> = Vec::new();
+    let mut pending: Vec<(usize, u64, u8)> = Vec::new();
     let fail = |f: Vec<Finding>| -> Result<(), String> {
         match f.into_iter().find(|x| x.tags.iter().any(|t| ["C15", "C06", "C11", "C05"].contains(t)) && x.known.is_none()) {
             Some(x) => Err(format!("HARNESS-or-other-property deviation while driving the RTT history: [{}] {}", x.tags.join(","), x.msg)),
@@ -94,13 +108,15 @@ pub fn check_rtt(c: &RttCase, st: &mut Stats) -> Result<(), String> {
         // deliver overdue pending responses first
         sim.now += t.gap.max(1);
         let now = sim.now;
-        let mut due: Vec<(usize, u64)> = pending.iter().copied().filter(|p| p.1 <= now).collect();
+        let mut due: Vec<(usize, u64, u8)> = pending.iter().copied().filter(|p| p.1 <= now).collect();
         pending.retain(|p| p.1 > now);
         due.sort_by_key(|p| p.1);
-        for (i, when) in due {
+        for (i, when, kind) in due {
             let save = sim.now;
             sim.now = when.max(sim.reqs[i].t0 + 1);
-            deliver(&mut sim, i, &mut model, &mut samples, &mut karn)?;
+            if !deliver(&mut sim, i, kind, 0, &mut model, &mut samples, &mut karn, st)? {
+                return Ok(());
+            }
             sim.now = save.max(sim.now);
         }
         if let Some(ls) = last_send {
@@ -110,8 +126,14 @@ pub fn check_rtt(c: &RttCase, st: &mut Stats) -> Result<(), String> {
             }
         }
         last_send = Some(sim.now);
+        let before = sim.reqs.len();
         let f = sim.step(&Op::Send { method: 1, attrs: vec![], small_buf: false });
         fail(f)?;
+        if sim.reqs.len() == before {
+            // the request was refused: not a C15 matter
+            st.class("send-refused-outside-focus");
+            return Ok(());
+        }
         let i = sim.reqs.len() - 1;
         let got = sim.reqs[i].rto as f64 / 1e9;
         let tol = 1e-5 * model.rto + 1e-6;
@@ -144,10 +166,12 @@ pub fn check_rtt(c: &RttCase, st: &mut Stats) -> Result<(), String> {
             continue;
         }
         if t.overlap {
-            pending.push((i, sim.now + t.delay.max(1)));
+            pending.push((i, sim.now + t.delay.max(1), t.kind));
         } else {
             sim.now += t.delay.max(1);
-            deliver(&mut sim, i, &mut model, &mut samples, &mut karn)?;
+            if !deliver(&mut sim, i, t.kind, t.delay.max(1), &mut model, &mut samples, &mut karn, st)? {
+                return Ok(());
+            }
         }
     }
     st.class(&format!("samples:{}", match samples { 0..=2 => "0-2", 3..=10 => "3-10", 11..=50 => "11-50", _ => ">50" }));
@@ -166,28 +190,57 @@ pub fn check_rtt(c: &RttCase, st: &mut Stats) -> Result<(), String> {
     Ok(())
 }
 
-fn deliver(sim: &mut Sim, i: usize, model: &mut RefRtt, samples: &mut u32, karn: &mut u32) -> Result<(), String> {
+/// Answer request i now.  Ok(false): the client did not complete the transaction on this answer — the business of the
+/// credential properties, not of C15; the case ends without a verdict (class counted).
+#[allow(clippy::too_many_arguments)]
+fn deliver(sim: &mut Sim, i: usize, kind: u8, delay: u64, model: &mut RefRtt, samples: &mut u32, karn: &mut u32, st: &mut Stats) -> Result<bool, String> {
     if sim.reqs[i].fin.is_some() {
-        return Ok(());
+        return Ok(true);
     }
-    let tid = sim.reqs[i].tid;
-    let retransmitted = sim.reqs[i].retransmitted;
     let t0 = sim.reqs[i].t0;
-    let bytes = build_message(1, 2, tid, vec![], &[], &Auth::None, false, &FpMode::Absent);
-    let f = sim.do_deliver(&bytes, true);
-    if let Some(x) = f.into_iter().find(|x| x.known.is_none()) {
-        return Err(format!("HARNESS-or-other-property deviation on delivery: [{}] {}", x.tags.join(","), x.msg));
+    let k = sim.awaiting().iter().position(|x| *x == i).unwrap_or(0) as u8;
+    let reply = |body: Body, auth: Auth| Reply { target: Target::Outstanding(k), body, extra: 0, auth, fp: FpMode::Absent, dup: false, twist: 0 };
+    let challenge = Body::Lt401 { algs: 1, anon: false, cookie: true, realm: 0, nonce: 1, drop_realm: false, drop_nonce: false };
+    let long_term = sim.cfg.mech == Mech::LongTerm;
+    let has_session = sim.lt_sess.is_some();
+    if kind == 4 && sim.cfg.mech != Mech::None && delay >= 2 && (!long_term || has_session) {
+        // an answer that fails authentication arrives first and is ignored (unreliable transport)
+        let save = sim.now;
+        sim.now = save - delay / 2;
+        if sim.now > t0 {
+            let _ = sim.step(&Op::Deliver(reply(Body::Success, Auth::CorruptMi)));
+        }
+        sim.now = save;
+        if sim.reqs[i].fin.is_some() {
+            st.class("reply-handling-outside-focus");
+            return Ok(false);
+        }
     }
-    if sim.reqs[i].fin.map(|f| f.0) != Some(FinalKind::Delivered) {
-        return Err("HARNESS-response was not delivered".into());
+    let r = match (long_term, has_session, kind) {
+        (false, _, 3) => reply(Body::Error(120), Auth::ValidExpected),
+        (false, _, _) => reply(Body::Success, if sim.cfg.mech == Mech::None { Auth::None } else { Auth::ValidExpected }),
+        (true, false, _) | (true, true, 1) => reply(challenge, Auth::None),
+        (true, true, 2) => reply(Body::Lt438 { nonce: (i % 5) as u8, drop_nonce: false }, Auth::None),
+        (true, true, 3) => reply(Body::Error(120), Auth::ValidExpected),
+        (true, true, _) => reply(Body::Success, Auth::ValidExpected),
+    };
+    let retransmitted = sim.reqs[i].retransmitted;
+    let f = sim.step(&Op::Deliver(r));
+    if let Some(x) = f.into_iter().find(|x| x.known.is_none() && !x.soft && x.tags.contains(&"C15")) {
+        return Err(format!("[{}] {}", x.tags.join(","), x.msg));
     }
+    if sim.reqs[i].fin.is_none() {
+        st.class("reply-handling-outside-focus");
+        return Ok(false);
+    }
+    st.class(&format!("completed-as:{:?}", sim.reqs[i].fin.unwrap().0));
     if retransmitted {
         *karn += 1;
     } else {
         model.sample((sim.now - t0) as f64 / 1e9);
         *samples += 1;
     }
-    Ok(())
+    Ok(true)
 }
 
 pub fn arb_case(max: usize) -> BoxedStrategy<RttCase> {
@@ -195,8 +248,9 @@ pub fn arb_case(max: usize) -> BoxedStrategy<RttCase> {
         prop_oneof![2 => Just(500_000u64), 2 => 1_000u64..=3_000_000, 1 => (1u64..=1000).prop_map(|k| k * 3_000)],
         prop_oneof![2 => Just(1_000u64), 1 => 1u64..=100_000],
         prop_oneof![3 => Just(None), 1 => (1u32..=14, 1u32..=32).prop_map(Some)],
+        prop_oneof![3 => Just(0u8), 1 => Just(1u8), 2 => Just(2u8)],
     )
-        .prop_flat_map(move |(rto_us, gran_us, rc_rm)| {
+        .prop_flat_map(move |(rto_us, gran_us, rc_rm, mech)| {
             let gap = prop_oneof![
                 6 => (1u64..=2_000).prop_map(|ms| ms * 1_000_000),
                 1 => Just(600_000_000_000u64),
@@ -220,9 +274,9 @@ pub fn arb_case(max: usize) -> BoxedStrategy<RttCase> {
                 1 => 1_000_000u64..=40_000_000_000,
                 3 => proptest::sample::select(specials),
             ];
-            let txn = (gap, prop_oneof![4 => Just(0u8), 1 => 1u8..=3], delay, prop_oneof![19 => Just(false), 1 => Just(true)], prop_oneof![5 => Just(false), 1 => Just(true)])
-                .prop_map(|(gap, retrans, delay, lost, overlap)| Txn { gap, retrans, delay, lost, overlap });
-            proptest::collection::vec(txn, 1..=max).prop_map(move |txns| RttCase { rto_us, gran_us, txns, rc_rm })
+            let txn = (gap, prop_oneof![4 => Just(0u8), 1 => 1u8..=3], delay, prop_oneof![19 => Just(false), 1 => Just(true)], prop_oneof![5 => Just(false), 1 => Just(true)], prop_oneof![4 => Just(0u8), 3 => 1u8..=4])
+                .prop_map(|(gap, retrans, delay, lost, overlap, kind)| Txn { gap, retrans, delay, lost, overlap, kind });
+            proptest::collection::vec(txn, 1..=max).prop_map(move |txns| RttCase { rto_us, gran_us, txns, rc_rm, mech })
         })
         .boxed()
 }
